@@ -1,3 +1,4 @@
+import Mrpro.Lemmas.RotBatchL
 import Mrpro.Lemmas.PowL
 import Mrpro.Model.Rotation
 import Mrpro.Lemmas.RotationL
@@ -70,5 +71,28 @@ theorem pow_nat_toMat (q : Q ℝ) (hq : q.normSq = 1) (n : ℕ) :
 /-- fractional powers form a one-parameter subgroup: `p ** x @ p ** y = p ** (x + y)` for all real exponents -/
 theorem pow_add (q : Q ℝ) (hq : q.normSq = 1) (x y : ℝ) : Q.mul (M.powQ x q) (M.powQ y q) = M.powQ (x + y) q :=
   M.powQ_add' q hq x y
+
+/-! ### batches: quaternion tensor and improper-flag tensor edited separately (`M.RotBatch`) act element-wise -/
+section Batches
+variable {K : Type}
+
+/-- item assignment equals element-wise assignment of the rotations (quaternion *and* flag: no stale flag can survive) -/
+theorem batch_setitem (b v : M.RotBatch K) (idx : List Nat) (hv : v.WF) :
+    (b.setIdx idx v).toList = M.writeList b.toList idx (M.bcast idx.length v.toList) := M.RotBatch.toList_setIdx b v idx hv
+
+/-- indexing takes the addressed rotations (and raises for an index out of range) -/
+theorem batch_getitem (b : M.RotBatch K) (idx : List Nat) : (b.getIdx? idx).map M.RotBatch.toList = M.gather? b.toList idx :=
+  M.RotBatch.toList_getIdx? b idx
+
+/-- concatenation, reshape and `invert_axes` act element-wise -/
+theorem batch_concat (a b : M.RotBatch K) (ha : a.WF) : (a.concat b).toList = a.toList ++ b.toList := M.RotBatch.toList_concat a b ha
+theorem batch_invertAxes (b : M.RotBatch K) : b.invertAxes.toList = b.toList.map M.Rot.invertAxes := M.RotBatch.toList_invertAxes b
+
+/-- every history of edits (item assignment, component setters, axis inversion, reshape, append, composition with a single rotation)
+on the two tensors equals the same history of element-wise edits on the list of rotations -/
+theorem batch_edit_history [Add K] [Sub K] [Mul K] (es : List (M.Edit K)) (b : M.RotBatch K) (hb : b.WF) (hes : ∀ e ∈ es, e.WF) :
+    (es.foldl M.Edit.apply b).toList = es.foldl M.Edit.applyList b.toList ∧ (es.foldl M.Edit.apply b).WF :=
+  M.toList_foldl_edits es b hb hes
+end Batches
 
 end C13
